@@ -713,3 +713,24 @@ func init() {
 		fmt.Println("REPLAY: not-reproduced")
 	}
 }
+
+func init() {
+	toBytes := func(in map[string]any) {
+		for name, l := range map[string]Layout{
+			"TextLayout": &TextLayout{BaseLayout{FileLineLength: 48}},
+			"JSONLayout": &JSONLayout{BaseLayout{FileLineLength: 48}},
+		} {
+			a := l.ToBytes(&Event{Level: InfoLevel, Tag: "_replay_a", File: "a.go", Line: 1, Fields: []Field{Msg("first event")}})
+			keep := string(a) // what the caller was handed
+			b := l.ToBytes(&Event{Level: ErrorLevel, Tag: "_replay_b", File: "b.go", Line: 2, Fields: []Field{Msg("SECOND EVENT, formatted while the first line is still in use")}})
+			if string(a) != keep {
+				fmt.Printf("REPLAY: confirmed %s.ToBytes: the bytes returned for the first event changed to %q when a second event was formatted (before: %q); both results share one pooled buffer (same backing array: %v)\n",
+					name, string(a), keep, len(a) > 0 && len(b) > 0 && &a[0] == &b[0])
+				return
+			}
+		}
+		fmt.Println("REPLAY: not-reproduced")
+	}
+	replayers["(*TextLayout).ToBytes"] = toBytes
+	replayers["(*JSONLayout).ToBytes"] = toBytes
+}
